@@ -944,3 +944,81 @@ Proof.
   apply scans_app; [apply close_scans|]. apply blank_scans.
 Qed.
 End Wrappers.
+
+(** ** groups of within-word automata *)
+Definition group_stmts (command : string) (a : alltables) (sid : N) (group : list N) : res (list stmt) :=
+  match group with
+  | [] => Panic "chunk_by: empty chunk"
+  | [id] =>
+      do t <- tables_of_id a id;
+      do acc <- accepting_of_id a id;
+      Ok (wrapper_stmts command id t acc)
+  | leader :: _ =>
+      do lt <- tables_of_id a leader;
+      do ws <- omap (fun id => do t <- tables_of_id a id;
+                               do acc <- accepting_of_id a id;
+                               Ok (shape_wrapper_stmts command id sid t acc)) group;
+      Ok (shape_fn_stmts command sid lt ++ List.concat ws)
+  end.
+
+Lemma obind_ok' {E A B} (x : outcome E A) (f : A -> outcome E B) b :
+  obind x f = Ok b -> exists a, x = Ok a /\ f a = Ok b.
+Proof. destruct x; cbn; intros H; try discriminate. eauto. Qed.
+
+Lemma scans_ex_app cmd t1 s1 t2 s2 :
+  (exists n, scans cmd n t1 s1) -> (exists n, scans cmd n t2 s2) -> exists n, scans cmd n (append t1 t2) (s1 ++ s2).
+Proof. intros [n1 H1] [n2 H2]. exists (n1 + n2)%nat. apply scans_app; assumption. Qed.
+
+Lemma members_scans command a sid (Hc : name_ok command) ids texts :
+  omap (fun id => do t <- tables_of_id a id; do acc <- accepting_of_id a id;
+                  Ok (append (write_subword_shape_wrapper_fn command id sid t acc) nl)) ids = Ok texts ->
+  exists stss,
+    omap (fun id => do t <- tables_of_id a id; do acc <- accepting_of_id a id;
+                    Ok (shape_wrapper_stmts command id sid t acc)) ids = Ok stss
+    /\ exists n, scans command n (sconcat texts) (List.concat stss).
+Proof.
+  revert texts. induction ids as [|id ids IH]; cbn [omap]; intros texts H.
+  - inversion H; subst. exists []. split; [reflexivity|]. exists 0%nat. apply scans_nil.
+  - apply obind_ok' in H. destruct H as [x [Hx H]]. apply obind_ok' in H. destruct H as [xs [Hxs H]].
+    inversion H; subst; clear H.
+    apply obind_ok' in Hx. destruct Hx as [t [Ht Hx]]. apply obind_ok' in Hx. destruct Hx as [acc [Hacc Hx]].
+    inversion Hx; subst; clear Hx.
+    destruct (IH _ Hxs) as [stss [Hs Hn]]. exists (shape_wrapper_stmts command id sid t acc :: stss). split.
+    + rewrite Ht. cbn [obind]. rewrite Hacc. cbn [obind]. rewrite Hs. reflexivity.
+    + cbn [sconcat List.concat]. apply scans_ex_app; [apply (shape_wrapper_scans command Hc) | exact Hn].
+Qed.
+
+Lemma group_scans command a sid group text :
+  name_ok command -> write_group command a sid group = Ok text ->
+  exists sts, group_stmts command a sid group = Ok sts /\ exists n, scans command n text sts.
+Proof.
+  intros Hc H. destruct group as [|id [|id2 rest]]; [discriminate H | |].
+  - unfold write_group in H. unfold group_stmts.
+    apply obind_ok' in H. destruct H as [t [Ht H]]. apply obind_ok' in H. destruct H as [acc [Hacc H]].
+    rewrite Ht. cbn [obind]. rewrite Hacc. cbn [obind].
+    eexists. split; [reflexivity|].
+    assert (E : (write_subword_wrapper_fn command id t acc ++ EmitBash.nl)%string = text) by congruence.
+    rewrite <- E. apply (wrapper_scans command Hc).
+  - unfold write_group in H. unfold group_stmts.
+    apply obind_ok' in H. destruct H as [lt [Hlt H]]. apply obind_ok' in H. destruct H as [ws [Hws H]].
+    rewrite Hlt. cbn [obind].
+    destruct (members_scans command a sid Hc _ _ Hws) as [stss [Hs Hn]]. rewrite Hs. cbn [obind].
+    eexists. split; [reflexivity|].
+    assert (E : (write_subword_shape_fn command sid lt ++ EmitBash.nl ++ sconcat ws)%string = text) by congruence.
+    rewrite <- E. rewrite <- (append_assoc (write_subword_shape_fn command sid lt)).
+    apply scans_ex_app; [apply (shape_fn_scans command Hc) | exact Hn].
+Qed.
+
+Lemma groups_scans command a (Hc : name_ok command) igs texts :
+  omap (fun ig : N * list N => write_group command a (fst ig) (snd ig)) igs = Ok texts ->
+  exists stss, omap (fun ig : N * list N => group_stmts command a (fst ig) (snd ig)) igs = Ok stss
+               /\ exists n, scans command n (sconcat texts) (List.concat stss).
+Proof.
+  revert texts. induction igs as [|ig igs IH]; cbn [omap]; intros texts H.
+  - inversion H; subst. exists []. split; [reflexivity|]. exists 0%nat. apply scans_nil.
+  - apply obind_ok' in H. destruct H as [x [Hx H]]. apply obind_ok' in H. destruct H as [xs [Hxs H]].
+    inversion H; subst; clear H.
+    destruct (group_scans _ _ _ _ _ Hc Hx) as [sts [Hs Hn]]. destruct (IH _ Hxs) as [stss [Hss Hnn]].
+    exists (sts :: stss). split; [rewrite Hs; cbn [obind]; rewrite Hss; reflexivity|].
+    cbn [sconcat List.concat]. apply scans_ex_app; assumption.
+Qed.
